@@ -14,6 +14,7 @@ open RdfModel RdfModel.C03 RdfModel.C04
 #print axioms RdfModel.C03.lines_sorted
 #print axioms RdfModel.C03.lines_sorted_unique
 #print axioms RdfModel.C03.parses_back
+#print axioms RdfModel.C03.equal_output_isomorphic
 #print axioms RdfModel.C03.first_degree_perm
 #print axioms RdfModel.C03.first_degree_rename
 #print axioms RdfModel.C03.first_degree_model
